@@ -516,7 +516,13 @@ func judgeMine(data []byte, t uint64, workers int, o *fw.Obs) {
 	var err error
 	var sp fw.SpareSet
 	dataIn := fw.NilIfEmpty(sp.Of("data", data, 64), byte(workers)) // a window into a larger buffer: a nonce appended to it would write into the caller's memory
-	if !o.Try("Mine", func() { nonce, err = powv2.New(workers).Mine(ctx, dataIn, t) }) {
+	if !o.Try("Mine", func() {
+		if workers == 0 {
+			nonce, err = powv2.New().Mine(ctx, dataIn, t) // the constructor's default worker count
+		} else {
+			nonce, err = powv2.New(workers).Mine(ctx, dataIn, t)
+		}
+	}) {
 		return
 	}
 	if !sp.Check(o) {
@@ -659,6 +665,8 @@ func gen(g *fw.Gen) {
 		w := 1
 		if g.Rng.Intn(3) == 0 {
 			w = 2 + g.Rng.Intn(15)
+		} else if g.Rng.Intn(12) == 0 {
+			w = 0 // New() without an argument
 		}
 		if g.Rng.Intn(40) == 0 {
 			t = 0
